@@ -899,9 +899,69 @@ def batches(ctx):
     return out
 
 
+def initial_time_family(ctx, n):
+    """directed family (oracle from the text, implementation only): an Environment with a non-zero `initial_time`
+    whose processes, timeouts and callbacks are registered BEFORE it runs (the usual SimPy set-up).  Everything starts
+    at `initial_time`; a Timeout fires exactly `delay` later; `run(until=T)` stops exactly at T; a callback that
+    defuses the failure of its own event keeps the run alive."""
+    from usim.py import Environment
+    rng = ctx.rng
+    for _ in range(n):
+        T0 = rng.choice([0, 3, 10, 10])
+        ds = [rng.choice([0, 1, 2, 3, 5]) for _ in range(rng.choice([1, 2, 3]))]
+        early = rng.choice([1, 4, 6])
+        until = rng.choice([None, None, T0 + 2, T0 + 20])
+        defuse = rng.random() < 0.4
+        case = {'initial_time': T0, 'delays': ds, 'early_timeout': early, 'until': until, 'defusing_callback': defuse}
+        env = Environment(initial_time=T0)
+        log, want = [], []
+
+        def worker(env, k, d0):
+            log.append(('start', k, env.now))
+            t = env.now
+            for j, d in enumerate(ds):
+                v = yield env.timeout(d + d0, (k, j))
+                log.append((v, env.now))
+            return k
+
+        ev = env.timeout(early, 'early')
+        ev.callbacks.append(lambda e: log.append((e.value, env.now)))
+        procs = [env.process(worker(env, k, k)) for k in range(rng.choice([1, 2]))]
+        if defuse:
+            bad = env.event()
+            bad.callbacks.append(lambda e: setattr(e, 'defused', True))
+            bad.fail(KeyError('defused by its own callback'))
+        for k in range(len(procs)):
+            want.append((T0, ('start', k, T0)))
+            t = T0
+            for j, d in enumerate(ds):
+                t += d + k
+                want.append((t, ((k, j), t)))
+        want.append((T0 + early, ('early', T0 + early)))
+        limit = until if until is not None else max(w[0] for w in want)
+        # `until=T` stops BEFORE the events scheduled for T are processed (SimPy semantics): strictly earlier only
+        want_set = sorted([w[1] for w in want if (until is None or w[0] < until)], key=repr)
+        try:
+            if env.now != T0:
+                ctx.fail(case, 'env.now is %r before the run, initial_time is %r' % (env.now, T0), family='initial-time')
+            env.run(until=until)
+        except BaseException as e:   # noqa
+            ctx.fail(case, 'env.run() raised %r' % (e,), family='initial-time')
+            continue
+        ctx.count(case, nontrivial=True)
+        ctx.bump('family:initial-time')
+        if sorted(log, key=repr) != want_set:
+            ctx.fail(case, 'observed %r, expected %r' % (sorted(log, key=repr), want_set), family='initial-time')
+        elif until is not None and env.now != until:
+            ctx.fail(case, 'run(until=%r) ended at %r' % (until, env.now), family='initial-time')
+        elif until is None and env.now != limit:
+            ctx.fail(case, 'run() ended at %r, the last event is due at %r' % (env.now, limit), family='initial-time')
+
+
 def run(ctx):
     import json
     from harness.check import parse_nat_list
+    initial_time_family(ctx, ctx.n(40, 600))
     # cases are kept as strings only: the per-run gc.collect() (needed so that tasks left parked by one
     # run are finalised before the next loop starts) must not have to traverse thousands of old graphs
     cases = []
